@@ -109,6 +109,11 @@ func (d *rawClientDriver) Next(w *World, step int) string {
 	if pc > 0 {
 		add(6, "dc t=0")
 	}
+	if pc > 1 && !d.hostile {
+		// (conforming conversations only: the lock-step monitors attribute what happens in an
+		// action to the frame delivered in it, which a burst containing a tunnel-level violation blurs)
+		add(3, fmt.Sprintf("dc t=0 n=%d", 2+rng.Intn(3)))
+	}
 	if ps > 0 {
 		add(3, "ds t=0")
 	}
